@@ -95,7 +95,23 @@ def apply_splits(A, w, attrs, splits):
 
 
 def build(cls, A, w, directed, attrs):
-    net = cls(adjacency=np.array(A, dtype=np.int8), directed=bool(directed),
+    Ad = np.array(A, dtype=np.int8)
+    adj = Ad
+    n = Ad.shape[0]
+    if n >= 3 and (int(Ad.sum()) + n) % 3 == 0:
+        # the same 0/1 matrix as a SciPy sparse matrix that physically stores some of its zeros (what `M.data = M.data > t`
+        # or `M[i, j] = 0` leave behind): a non-link whatever the storage says
+        import scipy.sparse as sp_
+        li, lj = np.nonzero(Ad)
+        zi, zj = np.nonzero((Ad == 0) & ~np.eye(n, dtype=bool))
+        keep = (zi * 7 + zj * 3) % 4 == 0
+        if not directed:
+            keep &= True
+        rows = np.concatenate([li, zi[keep]])
+        cols = np.concatenate([lj, zj[keep]])
+        data = np.concatenate([np.ones(len(li), dtype=np.int8), np.zeros(int(keep.sum()), dtype=np.int8)])
+        adj = sp_.csc_matrix(sp_.coo_matrix((data, (rows, cols)), shape=(n, n)))
+    net = cls(adjacency=adj, directed=bool(directed),
               node_weights=np.array(w, dtype=float), silence_level=3)
     for name, W in attrs.items():
         net.set_link_attribute(name, np.array(W, dtype=float))
